@@ -334,6 +334,12 @@ func doReplay(args []string) {
 					cf.WriteAt(append(hdr[:], s...), 0)
 				}
 				if p := guard(func() { f.replay([]byte(s), wa) }); p != "" {
+					if strings.Contains(p, "value deeper than MaxDepth") {
+						// a value the library handed back (or left in the caller's Map) cannot be walked: it contains itself.
+						// No Map of the specification does; the line is the replayable case
+						wa.Mis(name+":cyclic-result", "an operation of this case left a value that contains itself ("+p+")", json.RawMessage(s))
+						continue
+					}
 					wa.mu.Lock()
 					wa.Fatal = "harness panic: " + p
 					wa.mu.Unlock()
@@ -601,7 +607,12 @@ func doOne(args []string) {
 		}
 		return
 	}
-	f.replay(r.Case, a)
+	if p := guard(func() { f.replay(r.Case, a) }); p != "" {
+		if !strings.Contains(p, "value deeper than MaxDepth") {
+			panic(p)
+		}
+		a.Mis(r.Family+":cyclic-result", "an operation of this case left a value that contains itself ("+p+")", r.Case) // (as in the replay loop)
+	}
 	writeSummary(a, "-")
 	runAtExit()
 	if a.MisCount > 0 {
